@@ -103,11 +103,14 @@ void harness(void) {
   AOCS_a5 dbt = malloc(sizeof(*dbt)); __CPROVER_assume(dbt != 0); G_db = (uint8_t *)dbt;
   static const int Z5[5] = {0, 0, 0, 0, 0}, Z4[4] = {0, 0, 0, 0};
   IN_K = nondet_u64(); IN_vlen = nondet_u64(); __CPROVER_assume(IN_vlen <= (1ULL << 33));
+#ifdef FUNCPOST
+  IN_vlen = 1;                 /* a constant: the leaf is then an object of constant size (all lengths: the base variant and the leafmk jobs) */
+#endif
   G_val = malloc(IN_vlen); __CPROVER_assume(G_val != 0);
   IN_depth = nondet_uint(); __CPROVER_assume(IN_depth < 8); G_b = kbyte(IN_K, IN_depth);
   { NODE_T *t = malloc(sizeof(NODE_T)); __CPROVER_assume(t != 0); G_obj = (uint8_t *)t; }
   nv_load(&GV0, G_obj, KIND); __CPROVER_assume(node_wf(&GV0));
-  const uint64_t ch = nv_child(&GV0, G_b);
+  const uint64_t ch = nv_child(&GV0, G_b); const uint8_t Qb = nondet_u8(); const uint64_t qch = nv_child(&GV0, Qb);   /* Qb: arbitrary witness key byte */
 #if KIND == 4
   __CPROVER_assume(nv_count(&GV0) < 256 || ch != 0);                             /* a full N256 holds every key byte */
 #endif
@@ -144,7 +147,7 @@ void harness(void) {
   int d5[5] = {0, 0, 0, 0, 0}, g4[4] = {0, 0, 0, 0};
   if (verif_exc_pending || !engaged || ch != 0) {
     /* ---------------------------------------------------------------- exception / restart / descend: nothing published, nothing retired */
-    __CPROVER_assert(G_nret == 0 && !OBS[1] && *slot_in_parent == self_w && GV1.count == GV0.count && GV1.prefix == GV0.prefix && nv_child(&GV1, G_b) == ch, "exception / restart / descend: nothing retired or made obsolete; parent slot, child count, prefix and the child for the key byte unchanged");
+    __CPROVER_assert(G_nret == 0 && !OBS[1] && *slot_in_parent == self_w && GV1.count == GV0.count && GV1.prefix == GV0.prefix && nv_child(&GV1, G_b) == ch && nv_child(&GV1, Qb) == qch, "exception / restart / descend: nothing retired or made obsolete; parent slot, child count, prefix and the child for the key byte unchanged");
     if (ch != 0 && !verif_exc_pending && engaged) {
       __CPROVER_assert(cip != 0 && __CPROVER_same_object(cip, G_obj) && *cip == ch, "descend: the slot inside this node that holds the child for the key byte is handed out");
       __CPROVER_assert(pcs.lock == (void *)LK[0] && ncs.lock == (void *)LK[1] && lg_allocs == 0 && cached1 == G_cached0, "descend: both sections stay open, nothing allocated, the cached leaf untouched");
@@ -170,6 +173,7 @@ void harness(void) {
   if (!full) {
     __CPROVER_assert(G_nret == 0 && !OBS[1] && *slot_in_parent == self_w && lg_frees == 0 && lg_allocs == (IN_cached ? 0u : 1u), "C10: below capacity the child is added in place: nothing replaced, retired or freed");
     __CPROVER_assert(nv_count(&GV1) == nv_count(&GV0) + 1 && GV1.prefix == GV0.prefix && nv_child(&GV1, G_b) == adt_tag(leaf, T_LEAF), "C10: one more child, same prefix, the key byte now leads to the new leaf");
+    if (Qb != G_b) __CPROVER_assert(nv_child(&GV1, Qb) == qch, "C01: every other key byte leads where it led before (arbitrary witness byte)");
     stats_check(&S0, &S1, IN_cached ? 0 : (int64_t)leafsz, d5, Z4, Z4, 0);
     VERIF_CANARY("in-place add reachable");
   } else {
@@ -180,6 +184,11 @@ void harness(void) {
     __CPROVER_assert(G_pgrow == 1 && OBS[1] && lg_frees == 0, "the replaced node is made obsolete, nothing is freed directly (its retirement is inside the copy routine, not modelled)");
 #else
     __CPROVER_assert(G_nret == 1 && retired(G_obj) && OBS[1] && lg_frees == 0, "C04-seq: the replaced node is made obsolete and retired once, nothing is freed directly");
+#if !defined(HAVE_P_GROW) && defined(FUNCPOST)      /* reads the new node: proved in the variant with a constant value length (see jobs.py) */
+    { static struct nview GVN; nv_load(&GVN, bigger, KIND + 1);
+      __CPROVER_assert(nv_count(&GVN) == nv_count(&GV0) + 1 && GVN.prefix == GV0.prefix && nv_child(&GVN, G_b) == adt_tag(leaf, T_LEAF), "C01/C10: the new node has one more child, the same prefix, and the key byte leads to the new leaf");
+      if (Qb != G_b) __CPROVER_assert(nv_child(&GVN, Qb) == qch, "C01: every other key byte leads where it led before (arbitrary witness byte)"); }
+#endif
     d5[KIND] = -1; d5[KIND + 1] = 1; g4[KIND] = 1;
     stats_check(&S0, &S1, (IN_cached ? 0 : (int64_t)leafsz) + (int64_t)n_size(KIND + 1) - (int64_t)n_size(KIND), d5, g4, Z4, 0);
 #endif
